@@ -4,7 +4,7 @@ import re
 
 CLAIMED = True
 LEVEL = 'proof'
-LEVEL_TEXT = ('Proof: 18 Coq theorems over the Gallina model of ImageRaw / ContiguousPixels / SubImage / Image '
+LEVEL_TEXT = ('Proof: 25 Coq theorems (20 in Properties/C09.v, 5 in C09_color.v) over the Gallina model of ImageRaw / ContiguousPixels / SubImage / Image '
               '(coq/Model/Imageraw.v, line-by-line incl. the raw load for all 7 raw widths x 2 data orders, the saturating '
               'nth() of RawDataIterator, the remaining_x/remaining_y/row_skip state machine as the list it yields, the five '
               'rejection tests of draw_sub_image, SubImage::new = intersection with the parent box, nested re-basing, '
@@ -20,7 +20,10 @@ LEVEL_TEXT = ('Proof: 18 Coq theorems over the Gallina model of ImageRaw / Conti
               'condition under which the unbounded model equals the i32/u32 code (offset_fits, area_fits, with_center_fits, direct_area_fits; '
               'all implied by rect_ok, C09_ranges_from_rect_ok). '
               'The model is tied to the code by running the extracted model and the real library on the same inputs on every run.')
-LEVEL_NOTE = ('Trusted: Coq kernel, extraction (ExtrOcamlBasic), OCaml/Rust drivers. The hand-written model is validated by '
+LEVEL_NOTE = ('Colour types: C09_color.v composes the raw values with C::from(raw) of the C12 colour model for all 14 built-in colour types '
+              '(valid colour; raw storage value = data value with the unused bits cleared), checked by the img_typed correspondence. '
+              'new_const is modelled (None = panic) and compared with a caught panic. '
+              'Trusted: Coq kernel, extraction (ExtrOcamlBasic), OCaml/Rust drivers. The hand-written model is validated by '
               'differential testing (pixel maps, call log, number of colours a draining target pulls) and by an independent '
               'byte-level reference in the p_ search suites, not proved equal to the Rust source. Colours are raw storage values; '
               'the conversion RawUx -> colour type is the identity on the value (checked by the correspondence for the six library '
@@ -49,8 +52,8 @@ ASSUMPTIONS = ['image extents within 2^29 (img_ok); bits per pixel one of 1, 2, 
 TRUSTED = ['modelled, not verified: slice::get / get(a..) / get(0..k) as nth_error / skipn / firstn, usize::saturating_add, '
            'u16/u32::from_le_bytes/from_be_bytes, `byte >> n` then RawUx::new as (byte / 2^n) mod 2^bpp',
            'd_pixel for SubImage (re-basing by the area top left) is specification, SubImage has no pixel() in the library',
-           'a direct ImageDrawable::draw_sub_image call with an area outside a SubImage\'s own box is documented as '
-           'not-to-be-called; it is compared model-vs-code but not judged by the search suite']
+           'a direct ImageDrawable::draw_sub_image call (documented as not for user code) on a SubImage is judged against the ROOT image '
+           '(C09_draw_sub_image_direct_nested: the code only re-bases), except on zero sized SubImages, where it is compared model-vs-code only']
 PARTIAL = []
 
 BPPS = [1, 2, 4, 8, 16, 24, 32]
